@@ -2,121 +2,100 @@
    and followed by Print Assumptions.
 
    Reading guide.  [run_plain s] is the response of handler script [s] without the gzip directive
-   (the identity run); [gzip_serve sl dexts cs cfgs path ae s] is the response of the same script
+   (the identity run); [gzip_serve dexts cs cfgs path ae s] is the response of the same script
    below the gzip middleware configured with blocks [cfgs], for request path [path] and
-   Accept-Encoding [ae]; [sl]/[dexts]/[prio] are the tables of the Go source (skip list, default
-   extensions, sibling priority) — every theorem holds for ALL tables, the check instantiates
-   them with the lists regenerated from the Go AST.  The compressor is any pair [gz]/[gunzip]
-   with gunzip (gz ws) = Some (concat ws) (a premise, not an axiom).  [wb s]: the handler sets
-   headers, then calls WriteHeader at most once before its first Write/Flush, then only writes
-   and flushes (any number, any chunking, any payload). *)
-Require Import V.Lib V.GoPath V.C18_Model V.C18_Proofs.
+   Accept-Encoding [ae]; [dexts]/[prio] are the tables of the Go source (default extensions,
+   sibling priority) — every theorem holds for ALL tables unless it names the regenerated lists
+   (Gen_C18.v), with which the check instantiates them.  The compressor is any pair [gz]/[gunzip]
+   with gunzip (gz ws) = Some (concat ws) (a premise, not an axiom).  A handler script [s] is
+   ANY sequence of header operations, WriteHeader calls, Writes and Flushes (any number, order,
+   chunking, payload: Flush before the header, repeated WriteHeader, header changes after the
+   response has started are all covered). *)
+Require Import V.Lib V.GoPath V.Gen_C18 V.C18_Model V.C18_Proofs.
 Open Scope N_scope.
 Local Open Scope string_scope.
 
 (* ---- 1. the decoded body equals the identity body; Content-Encoding names what was applied ---- *)
 
-(* For EVERY config list, request, Accept-Encoding, status, header set and write/flush pattern of
-   a well-behaved handler whose response is unencoded or encoded with a coding of the skip list:
+(* For EVERY config list, request, Accept-Encoding, status, header set (ANY Content-Encoding the
+   handler may have set, in any spelling) and EVERY sequence of handler operations:
    same status, and either the representation is untouched or exactly one gzip layer was added
    to an unencoded body, is named by Content-Encoding, and gunzips to the identity body. *)
-Theorem C18_gzip_transparent_partial :
+Theorem C18_gzip_transparent :
   forall (gz : list bytes -> bytes) (gunzip : bytes -> option bytes),
   (forall ws, gunzip (gz ws) = Some (concat ws)) ->
-  forall sl dexts cs cfgs path ae head s,
-  wb s = true ->
-  (r_ce (run_plain s) = [] \/ exists c, r_ce (run_plain s) = [c] /\ In c sl) ->
-  transparent gz gunzip head (gzip_serve sl dexts cs cfgs path ae s) (run_plain s).
-Proof. intros gz gunzip Hrt sl dexts. exact (gzip_transparent sl dexts gz gunzip Hrt). Qed.
-Print Assumptions C18_gzip_transparent_partial.
+  forall dexts cs cfgs path ae head s,
+  transparent gz gunzip head (gzip_serve dexts cs cfgs path ae s) (run_plain s).
+Proof. intros gz gunzip Hrt dexts. exact (gzip_transparent dexts gz gunzip Hrt). Qed.
+Print Assumptions C18_gzip_transparent.
 
-Example C18_gzip_transparent_nonvacuous :
-  let s := [OSet K_CT (bs "text/plain"); OSet K_CL (bs "3"); OWrite [1]; OFlush; OWrite [2; 3]] in
-  wb s = true /\ r_ce (run_plain s) = [] /\
-  r_segs (gzip_serve skip_snapshot [[]] false [bare] (bs "/x") (bs "gzip") s) = [SG [[1]; [2; 3]]] /\
-  r_cl (gzip_serve skip_snapshot [[]] false [bare] (bs "/x") (bs "gzip") s) = [].
+(* the handler shapes that used to break it *)
+Example C18_gzip_transparent_hard_scripts :
+  let run := gzip_serve [[]] false [bare] (bs "/x") (bs "gzip") in
+  (* chunked writes with a flush in between *)
+  r_segs (run [OSet K_CT (bs "text/plain"); OSet K_CL (bs "3"); OWrite [1]; OFlush; OWrite [2; 3]]) = [SG [[1]; [2; 3]]] /\
+  r_cl (run [OSet K_CT (bs "text/plain"); OSet K_CL (bs "3"); OWrite [1]; OFlush; OWrite [2; 3]]) = [] /\
+  (* Flush before the header: the flushed headers name the coding of the body *)
+  (let out := run [OSet K_CL (bs "3"); OFlush; OWrite [1; 2; 3]] in
+   r_ce out = [GZIP] /\ r_cl out = [] /\ r_segs out = [SG [[1; 2; 3]]]) /\
+  (* repeated WriteHeader, also after a Flush and between writes: still one gzip stream *)
+  (let out := run [OWriteHeader 200; OWriteHeader 200; OWrite [1; 2; 3]] in
+   r_ce out = [GZIP] /\ r_segs out = [SG [[1; 2; 3]]]) /\
+  (let out := run [OFlush; OWriteHeader 404; OWrite [1]; OWriteHeader 200; OSet K_CE (bs "br"); OWrite [2]] in
+   r_status out = 200%Z /\ r_ce out = [GZIP] /\ r_segs out = [SG [[1]; [2]]]).
 Proof. vm_compute. repeat split; reflexivity. Qed.
 
 (* the same in the client's terms: what a client that honours Content-Encoding decodes is the
-   identity body, for every unencoded inner response *)
+   identity body, for every unencoded inner response (no Content-Encoding, or "identity") *)
 Theorem C18_client_decodes_identity_body :
   forall (gz : list bytes -> bytes) (gunzip : bytes -> option bytes),
   (forall ws, gunzip (gz ws) = Some (concat ws)) ->
-  forall sl dexts cs cfgs path ae head s,
-  wb s = true -> r_ce (run_plain s) = [] ->
-  client_body gz gunzip head (gzip_serve sl dexts cs cfgs path ae s) = Some (wire gz head (run_plain s)).
-Proof. intros gz gunzip Hrt sl dexts. exact (client_view sl dexts gz gunzip Hrt). Qed.
+  forall dexts cs cfgs path ae head s,
+  no_coding (r_ce (run_plain s)) = true ->
+  client_body gz gunzip head (gzip_serve dexts cs cfgs path ae s) = Some (wire gz head (run_plain s)).
+Proof. intros gz gunzip Hrt dexts. exact (client_view dexts gz gunzip Hrt). Qed.
 Print Assumptions C18_client_decodes_identity_body.
 
-(* The unrestricted statement is false of the code, in two independent ways. *)
-(* (a) codings outside the skip list: a zstd-encoded response (the file server emits those) is
-   gzipped again and relabelled "gzip" — no client can recover the content from the header *)
-Theorem C18_gzip_transparent_refuted :
-  exists cfgs path ae s,
-  wb s = true /\ (exists c, r_ce (run_plain s) = [c] /\ In c (map fst priority_snapshot)) /\
-  forall gz gunzip,
-  ~ transparent gz gunzip false (gzip_serve skip_snapshot [[]; bs ".txt"] false cfgs path ae s) (run_plain s).
-Proof.
-  exists [bare], (bs "/x"), (bs "zstd, gzip"), [OSet K_CE (bs "zstd"); OWrite [1; 2; 3]].
-  split; [reflexivity|]. split.
-  - exists (bs "zstd"). split; [reflexivity | left; reflexivity].
-  - exact zstd_not_transparent.
-Qed.
-Print Assumptions C18_gzip_transparent_refuted.
+(* the body is never a mixture: all of it plain exactly as in the identity run, or one gzip stream
+   holding exactly the identity run's writes *)
+Theorem C18_one_representation :
+  forall dexts cs cfgs path ae s,
+  let out := gzip_serve dexts cs cfgs path ae s in
+  (applied out = [] /\ all_plain (r_segs out) = all_plain (r_segs (run_plain s)) /\
+   exists b, all_plain (r_segs out) = Some b) \/
+  (applied out = [GZIP] /\ exists ws, r_segs out = [SG ws] /\ all_plain (r_segs (run_plain s)) = Some (concat ws)).
+Proof. exact one_representation. Qed.
+Print Assumptions C18_one_representation.
 
-(* (b) handlers that are not well-behaved: a Flush before the header is written commits the
-   headers without Content-Encoding, the body is compressed all the same *)
-Theorem C18_flush_before_header_refuted :
-  exists cfgs path ae s,
-  let out := gzip_serve skip_snapshot [[]; bs ".txt"] false cfgs path ae s in
-  r_ce (run_plain s) = [] /\ applied out = [GZIP] /\ r_ce out = [] /\
-  forall gz, wire gz false out = gz [[1; 2; 3]] /\ wire gz false (run_plain s) = [1; 2; 3].
-Proof. exists [bare], (bs "/x"), (bs "gzip"), [OFlush; OWrite [1; 2; 3]]. exact flush_first_witness. Qed.
-Print Assumptions C18_flush_before_header_refuted.
-
-(* (c) a second WriteHeader re-runs the response filters, which now see "Content-Encoding: gzip"
-   and switch compression off: plain bytes (plus an empty gzip stream) under a gzip label *)
-Theorem C18_repeated_writeheader_refuted :
-  exists cfgs path ae s,
-  let out := gzip_serve skip_snapshot [[]; bs ".txt"] false cfgs path ae s in
-  r_ce out = [GZIP] /\ r_segs out = [SP [1; 2; 3]; SG []].
-Proof.
-  exists [bare], (bs "/x"), (bs "gzip"), [OWriteHeader 200; OWriteHeader 200; OWrite [1; 2; 3]].
-  exact repeated_writeheader_witness.
-Qed.
-Print Assumptions C18_repeated_writeheader_refuted.
-
-Theorem C18_content_encoding_exact_partial :
-  forall sl dexts cs cfgs path ae s,
-  wb s = true ->
-  (r_ce (run_plain s) = [] \/ exists c, r_ce (run_plain s) = [c] /\ In c sl) ->
-  let out := gzip_serve sl dexts cs cfgs path ae s in
-  r_ce out = r_ce (run_plain s) ++ applied out.
+(* Content-Encoding names exactly the codings applied: untouched when the layer applied none,
+   otherwise the inner response named no coding and the header names gzip alone *)
+Theorem C18_content_encoding_exact :
+  forall dexts cs cfgs path ae s,
+  let out := gzip_serve dexts cs cfgs path ae s in
+  (applied out = [] -> r_ce out = r_ce (run_plain s)) /\
+  codings (r_ce out) = codings (r_ce (run_plain s)) ++ applied out.
 Proof. exact ce_exact. Qed.
-Print Assumptions C18_content_encoding_exact_partial.
+Print Assumptions C18_content_encoding_exact.
 
 (* ---- 2. already-encoded responses are not encoded again ---- *)
 
-(* with a coding of the skip list the response is not touched at all (headers included) *)
-Theorem C18_not_double_encoded_partial :
-  forall sl dexts cs cfgs path ae s c,
-  wb s = true -> r_ce (run_plain s) = [c] -> In c sl ->
-  gzip_serve sl dexts cs cfgs path ae s = run_plain s.
+(* whatever the Content-Encoding of the inner response says — any value other than "" and
+   "identity": listed or unlisted coding, x-gzip, GZIP, "br, gzip", several header lines — the
+   response is not touched at all (headers included) *)
+Theorem C18_not_double_encoded :
+  forall dexts cs cfgs path ae s,
+  no_coding (r_ce (run_plain s)) = false ->
+  gzip_serve dexts cs cfgs path ae s = run_plain s.
 Proof. exact not_double_encoded. Qed.
-Print Assumptions C18_not_double_encoded_partial.
+Print Assumptions C18_not_double_encoded.
 
-(* full statement (every coding the file server can emit) fails for zstd with the tables of the
-   snapshot: skip list gzip/compress/deflate/br, sibling priority zstd/br/gzip *)
-Theorem C18_not_double_encoded_refuted :
-  exists cfgs path ae s c,
-  wb s = true /\ r_ce (run_plain s) = [c] /\ In c (map fst priority_snapshot) /\
-  applied (gzip_serve skip_snapshot [[]; bs ".txt"] false cfgs path ae s) = [GZIP] /\
-  r_ce (gzip_serve skip_snapshot [[]; bs ".txt"] false cfgs path ae s) = [GZIP].
-Proof.
-  exists [bare], (bs "/x"), (bs "zstd, gzip"), [OSet K_CE (bs "zstd"); OWrite [1; 2; 3]], (bs "zstd").
-  exact zstd_double_encoded_witness.
-Qed.
-Print Assumptions C18_not_double_encoded_refuted.
+Example C18_not_double_encoded_nonvacuous :
+  forallb (fun ce => let s := [OSet K_CE ce; OWrite [1; 2; 3]] in
+                     negb (no_coding (r_ce (run_plain s))))
+          [bs "zstd"; bs "x-gzip"; bs "GZIP"; bs "br, gzip"; bs "gzip"; bs "Identity"] = true /\
+  (let s := [OAdd K_CE (bs "identity"); OAdd K_CE (bs "br"); OWrite [1]] in
+   no_coding (r_ce (run_plain s)) = false).
+Proof. vm_compute. split; reflexivity. Qed.
 
 (* precompressed siblings: the file server picks the first coding of its priority list that the
    client listed verbatim and whose sibling exists ... *)
@@ -138,59 +117,52 @@ Theorem C18_static_no_sibling_when_none_eligible :
 Proof. exact select_sibling_none. Qed.
 Print Assumptions C18_static_no_sibling_when_none_eligible.
 
-(* ... and a sibling in a coding of the skip list goes out exactly as without gzip *)
-Theorem C18_static_sibling_not_reencoded_partial :
-  forall sl dexts prio cs cfgs path ae head data sibs name ext,
-  select_sibling prio ae (fun e => match sib_data sibs e with Some _ => true | None => false end) = Some (name, ext) ->
-  In name sl ->
-  gzip_serve sl dexts cs cfgs path ae (static_script prio head ae data sibs) =
-  run_plain (static_script prio head ae data sibs).
-Proof. exact static_sibling_not_reencoded. Qed.
-Print Assumptions C18_static_sibling_not_reencoded_partial.
+(* ... and whichever sibling it picks goes out exactly as without gzip (priority list of the
+   current sources: each of its names is a coding, none is "" or "identity") *)
+Theorem C18_static_sibling_not_reencoded :
+  forall dexts cs cfgs path ae head data sibs name ext,
+  select_sibling gen_c18_static_priority ae
+    (fun e => match sib_data sibs e with Some _ => true | None => false end) = Some (name, ext) ->
+  gzip_serve dexts cs cfgs path ae (static_script gen_c18_static_priority head ae data sibs) =
+  run_plain (static_script gen_c18_static_priority head ae data sibs).
+Proof. exact static_sibling_not_reencoded_full. Qed.
+Print Assumptions C18_static_sibling_not_reencoded.
 
-Theorem C18_static_sibling_not_reencoded_refuted :
-  exists cfgs path ae data sibs,
-  let s := static_script priority_snapshot false ae data sibs in
-  select_sibling priority_snapshot ae (fun e => match sib_data sibs e with Some _ => true | None => false end)
-    = Some (bs "zstd", bs ".zst") /\
-  r_ce (run_plain s) = [bs "zstd"] /\
-  applied (gzip_serve skip_snapshot [[]; bs ".txt"] false cfgs path ae s) = [GZIP] /\
-  r_ce (gzip_serve skip_snapshot [[]; bs ".txt"] false cfgs path ae s) = [GZIP].
-Proof.
-  exists [bare], (bs "/f.txt"), (bs "zstd, gzip"), [100; 97; 116; 97], [(bs ".zst", [40; 181; 47; 253])].
-  exact static_zstd_witness.
-Qed.
-Print Assumptions C18_static_sibling_not_reencoded_refuted.
+Example C18_static_sibling_not_reencoded_nonvacuous :
+  select_sibling gen_c18_static_priority (bs "zstd, gzip")
+    (fun e => match sib_data [(bs ".zst", [40; 181; 47; 253])] e with Some _ => true | None => false end)
+  = Some (bs "zstd", bs ".zst").
+Proof. vm_compute. reflexivity. Qed.
 
 (* a file without eligible sibling: the client decodes the file's bytes, whatever gzip decides *)
 Theorem C18_static_plain_file_transparent :
-  forall sl dexts prio (gz : list bytes -> bytes) (gunzip : bytes -> option bytes),
+  forall dexts prio (gz : list bytes -> bytes) (gunzip : bytes -> option bytes),
   (forall ws, gunzip (gz ws) = Some (concat ws)) ->
   forall cs cfgs path ae head data sibs,
   select_sibling prio ae (fun e => match sib_data sibs e with Some _ => true | None => false end) = None ->
-  client_body gz gunzip head (gzip_serve sl dexts cs cfgs path ae (static_script prio head ae data sibs))
+  client_body gz gunzip head (gzip_serve dexts cs cfgs path ae (static_script prio head ae data sibs))
   = Some (if bodyless head 200 then [] else data).
 Proof. exact static_plain_transparent. Qed.
 Print Assumptions C18_static_plain_file_transparent.
 
 (* ---- 3. Content-Length is absent or correct ---- *)
 Theorem C18_content_length_absent_or_correct :
-  forall sl dexts (gz : list bytes -> bytes) cs cfgs path ae head s,
-  wb s = true -> cl_correct gz head (run_plain s) ->
-  cl_correct gz head (gzip_serve sl dexts cs cfgs path ae s).
+  forall dexts (gz : list bytes -> bytes) cs cfgs path ae head s,
+  cl_correct gz head (run_plain s) ->
+  cl_correct gz head (gzip_serve dexts cs cfgs path ae s).
 Proof. exact content_length_ok. Qed.
 Print Assumptions C18_content_length_absent_or_correct.
 
 Example C18_content_length_nonvacuous :
   let s := [OSet K_CL (bs "3"); OWrite [1; 2; 3]] in
-  wb s = true /\ r_cl (run_plain s) = [bs "3"] /\ parse_int (bs "3") = Some 3%Z.
+  r_cl (run_plain s) = [bs "3"] /\ parse_int (bs "3") = Some 3%Z.
 Proof. vm_compute. repeat split; reflexivity. Qed.
 
 (* static files (GET): the header, if still there, is FormatInt of the number of bytes sent —
    whichever sibling was picked and whatever gzip decided *)
 Theorem C18_static_content_length_correct :
-  forall sl dexts prio (gz : list bytes -> bytes) cs cfgs path ae data sibs,
-  let out := gzip_serve sl dexts cs cfgs path ae (static_script prio false ae data sibs) in
+  forall dexts prio (gz : list bytes -> bytes) cs cfgs path ae data sibs,
+  let out := gzip_serve dexts cs cfgs path ae (static_script prio false ae data sibs) in
   r_cl out = [] \/ r_cl out = [decimal (N.of_nat (length (wire gz false out)))].
 Proof. exact static_content_length. Qed.
 Print Assumptions C18_static_content_length_correct.
@@ -201,42 +173,57 @@ Example C18_decimal_parse_roundtrip_samples :
 Proof. vm_compute. reflexivity. Qed.
 
 (* ---- 4. clients that did not offer gzip get the identity response ---- *)
-(* true as the code reads the header (substring test), for every handler whatsoever *)
-Theorem C18_identity_when_not_offered_partial :
-  forall sl dexts cs cfgs path ae s,
-  contains ae GZIP = false -> gzip_serve sl dexts cs cfgs path ae s = run_plain s.
-Proof. exact identity_when_no_gzip_substring. Qed.
-Print Assumptions C18_identity_when_not_offered_partial.
+(* for the RFC 7231 reading of Accept-Encoding ([offers_gzip]: comma list, coding name before ';',
+   case-insensitive, q=0 means "not acceptable", "*" covers codings not listed) and for every
+   handler whatsoever: "gzip;q=0", "notgzip", "gzipped, br", "x-gzip;q=0.0" ... get the identity
+   response *)
+Theorem C18_identity_when_not_offered :
+  forall dexts cs cfgs path ae s,
+  offers_gzip ae = false -> gzip_serve dexts cs cfgs path ae s = run_plain s.
+Proof. exact identity_when_not_offered. Qed.
+Print Assumptions C18_identity_when_not_offered.
 
-(* false for the RFC 7231 reading of Accept-Encoding ([offers_gzip]): "gzip;q=0" refuses gzip *)
-Theorem C18_identity_when_not_offered_refuted :
-  exists cfgs path ae s,
-  offers_gzip ae = false /\ wb s = true /\
-  applied (gzip_serve skip_snapshot [[]; bs ".txt"] false cfgs path ae s) = [GZIP].
-Proof. exists [bare], (bs "/x"), (bs "gzip;q=0"), [OWrite [1; 2; 3]]. exact q0_witness. Qed.
-Print Assumptions C18_identity_when_not_offered_refuted.
+Example C18_identity_when_not_offered_nonvacuous :
+  forallb (fun ae => negb (offers_gzip ae))
+    [bs "gzip;q=0"; bs "gzip;q=0, identity"; bs "gzip; q=0.0, br"; bs "br, gzip;Q=0.000"; bs "notgzip";
+     bs "gzipped, br"; bs "x-gzip;q=0"; bs "br"; bs ""] = true /\
+  forallb (fun ae => lbeq (applied (gzip_serve [[]] false [bare] (bs "/x") ae [OWrite [1; 2; 3]])) [GZIP])
+    [bs "gzip"; bs "br, gzip"; bs " gzip ;q=0.5"; bs "x-gzip"; bs "gzip;q=0, gzip"; bs "deflate, gzip;q=1.0"] = true.
+Proof. vm_compute. split; reflexivity. Qed.
+
+(* the code's own test (acceptsGzip), which is what decides *)
+Theorem C18_identity_when_not_accepted :
+  forall dexts cs cfgs path ae s,
+  accepts_gzip ae = false -> gzip_serve dexts cs cfgs path ae s = run_plain s.
+Proof. exact identity_when_not_accepted. Qed.
+Print Assumptions C18_identity_when_not_accepted.
+
+(* ... never sees gzip offered where the RFC reading does not *)
+Theorem C18_accepts_gzip_sound :
+  forall ae, accepts_gzip ae = true -> offers_gzip ae = true.
+Proof. exact accepts_offers. Qed.
+Print Assumptions C18_accepts_gzip_sound.
 
 (* ---- 5. request filters, min_length, header rewriting, liveness ---- *)
 Theorem C18_excluded_request_identity :
-  forall sl dexts cs cfgs path ae s,
+  forall dexts cs cfgs path ae s,
   (forall c, In c cfgs -> req_ok dexts cs path c = false) ->
-  gzip_serve sl dexts cs cfgs path ae s = run_plain s.
+  gzip_serve dexts cs cfgs path ae s = run_plain s.
 Proof. exact excluded_identity. Qed.
 Print Assumptions C18_excluded_request_identity.
 
 Theorem C18_min_length_respected :
-  forall sl dexts cs cfgs path ae s c,
-  wb s = true -> find (req_ok dexts cs path) cfgs = Some c -> c_min c <> 0%Z ->
+  forall dexts cs cfgs path ae s c,
+  find (req_ok dexts cs path) cfgs = Some c -> c_min c <> 0%Z ->
   (r_cl (run_plain s) = [] \/
    exists v r, r_cl (run_plain s) = v :: r /\ forall n, parse_int v = Some n -> (n < c_min c)%Z) ->
-  gzip_serve sl dexts cs cfgs path ae s = run_plain s.
+  gzip_serve dexts cs cfgs path ae s = run_plain s.
 Proof. exact min_length_respected. Qed.
 Print Assumptions C18_min_length_respected.
 
 Theorem C18_compressed_response_headers :
-  forall sl dexts cs cfgs path ae s,
-  wb s = true ->
-  let out := gzip_serve sl dexts cs cfgs path ae s in
+  forall dexts cs cfgs path ae s,
+  let out := gzip_serve dexts cs cfgs path ae s in
   applied out = [GZIP] ->
   r_ce out = [GZIP] /\ r_cl out = [] /\ In V_AE (hvals (r_hdr out) K_VARY) /\
   hget (r_hdr out) K_ETAG = weak_of (hget (r_hdr (run_plain s)) K_ETAG).
@@ -244,10 +231,10 @@ Proof. exact compressed_headers. Qed.
 Print Assumptions C18_compressed_response_headers.
 
 Theorem C18_compresses_when_eligible :
-  forall sl dexts cs cfgs path ae s c,
-  wb s = true -> forallb is_hdr s = false ->
-  contains ae GZIP = true -> find (req_ok dexts cs path) cfgs = Some c ->
-  resp_ok sl c (r_hdr (run_plain s)) = true ->
-  applied (gzip_serve sl dexts cs cfgs path ae s) = [GZIP].
+  forall dexts cs cfgs path ae s c,
+  forallb is_hdr s = false ->
+  accepts_gzip ae = true -> find (req_ok dexts cs path) cfgs = Some c ->
+  resp_ok c (r_hdr (run_plain s)) = true ->
+  applied (gzip_serve dexts cs cfgs path ae s) = [GZIP].
 Proof. exact compresses_when_eligible. Qed.
 Print Assumptions C18_compresses_when_eligible.
